@@ -142,9 +142,20 @@ def stRepr (bs : Bytes) : String := s!"st:{bs.length}:{hex8 (crc32 bs)}"
 
 /-- raw LZMA decoder histories: `ops=d:<hex>;r;rs:none;rs:<n>;st` -/
 def runRawLzma (f : Fields) : String :=
-  let params : LzmaParams :=
-    { props := { lc := f.nat "lc", lp := f.nat "lp", pb := f.nat "pb" }
-      dictSize := f.nat "dict", unpackedSize := parseOptNat (f.get "us") }
+  -- `hdr=<hex>`: the two-step construction read_header(&options) → LzmaDecoder::new(params, ml)
+  let paramsE : Except Err LzmaParams :=
+    if (f.get "hdr").isEmpty then
+      .ok { props := { lc := f.nat "lc", lp := f.nat "lp", pb := f.nat "pb" }
+            dictSize := f.nat "dict", unpackedSize := parseOptNat (f.get "us") }
+    else
+      let opts : Options :=
+        { unpackedSize := parseUs (f.get "hus")
+          memlimit := parseOptNat (f.get "hml" |> fun s => if s.isEmpty then "none" else s)
+          allowIncomplete := f.get "hai" == "1" }
+      (readHeader (Rd.ofBytes (f.bytes "hdr")) opts).map Prod.fst
+  match paramsE with
+  | .error e => s!"new:{verdictOf (Except.error e : Except Err Unit)}"
+  | .ok params =>
   match LzmaDecoder.new params (parseOptNat (f.get "ml")) with
   | .error e => s!"new:{verdictOf (Except.error e : Except Err Unit)}"
   | .ok d0 =>
@@ -239,6 +250,7 @@ def runStream (f : Fields) : String :=
           stReprOf ([1, UInt8.ofNat st.tmp.length] ++ st.tmp ++ leBytes 4 rs.range ++ leBytes 4 rs.code ++
             leBytes 8 rs.output.len) rs.decoder
       (st, snk, acc ++ [r], false)
+    | ["dbg"] => (st, snk, acc ++ ["dbgok"], false)      -- formatting a stream never panics
     | ["go"] =>
       -- `get_output` / `get_output_mut`: the sink is reachable unless the stream has failed
       (st, snk, acc ++ [match st.state with
